@@ -136,6 +136,8 @@ func runEQReuse(c eqReuse) ev.Outcome {
 	ntCalls, calls := 0, 0
 	worstRatio := 0.0
 	usedShared := map[int]bool{}
+	var held []eqAnswer // answers of earlier FindEdges calls, with the slices as returned
+	var heldAt []int
 	for i, op := range c.Ops {
 		switch op.M {
 		case "Reset":
@@ -168,6 +170,20 @@ func runEQReuse(c eqReuse) ev.Outcome {
 			ntCalls++
 		}
 		got := eqCall(q, op.M, target, s1.ChordAngle(op.Limit))
+		if op.M == "FindEdges" {
+			held = append(held, got)
+			heldAt = append(heldAt, i)
+		}
+		// an answer is the caller's: no later call on the same query may rewrite
+		// a result slice returned earlier
+		for k, h := range held {
+			if h.rewritten() {
+				o.Err = fmt.Sprintf("the results returned by call %d (FindEdges, %d results) were rewritten in place by call %d %s on the same %v query", heldAt[k], len(h.Res), i, op.M, c.Cfg)
+				o.Finding = "returned-results-rewritten"
+				o.NonTrivial = true
+				return o
+			}
+		}
 		// the shortest sequence: fresh index, fresh options, fresh query, fresh target
 		fidx := indexOfShapes(buildShapes(c.Shapes))
 		fq := c.Cfg.query(fidx, c.Cfg.options())
